@@ -12,7 +12,7 @@ using namespace vf;
 
 struct Box { double mn[3]; double ext[3]; double voxel; };   // extents in voxels
 
-struct Case { Box b; int grid_kind; };                        // 3 = uspg_3d, 4 = uspg_4d
+struct Case { Box b; int grid_kind; int refill = 0; /* 1: the grid object has already been filled for another box and is re-dimensioned for this one */ };                        // 3 = uspg_3d, 4 = uspg_4d
 
 static std::string box_text(const Box& b) {
     return dhex(b.mn[0]) + " " + dhex(b.mn[1]) + " " + dhex(b.mn[2]) + " " + dhex(b.ext[0]) + " " + dhex(b.ext[1]) + " " + dhex(b.ext[2]) + " " + dhex(b.voxel);
@@ -24,7 +24,7 @@ struct Stats { long points = 0, nb_queries = 0, boundary_points = 0, max_corner_
 
 // Runs one box on one grid class; returns "" or "<clause>: detail".
 template <class GRID>
-static std::string run_case(const Box& b, bool is3d, Stats& st) {
+static std::string run_case(const Box& b, bool is3d, Stats& st, int refill = 0) {
     double mx[3]; for (int k = 0; k < 3; k++) mx[k] = b.mn[k] + b.ext[k] * b.voxel;
     // lattice of half-voxel spacing inside the box, the faces / edges / corners included (last coordinate = max exactly)
     std::vector<double> ax[3];
@@ -33,7 +33,9 @@ static std::string run_case(const Box& b, bool is3d, Stats& st) {
         ax[k].push_back(std::nextafter(mx[k], b.mn[k])); ax[k].push_back(std::nextafter(b.mn[k], mx[k])); }
     std::vector<std::array<double, 3>> pts;
     for (double x : ax[0]) for (double y : ax[1]) for (double z : ax[2]) pts.push_back({x, y, z});
-    GRID g(b.mn[0], b.mn[1], b.mn[2], mx[0], mx[1], mx[2], b.voxel, pts.size());
+    // refill: the object lives on from an earlier use on a larger, shifted box (what a long-lived grid member does every iteration): nothing of the earlier fill may survive the re-dimensioning
+    GRID g = refill ? GRID(b.mn[0] - b.voxel, b.mn[1] - 0.5 * b.voxel, b.mn[2] - 2 * b.voxel, mx[0] + 2 * b.voxel, mx[1] + b.voxel, mx[2] + 0.5 * b.voxel, b.voxel, pts.size() + 8) : GRID(b.mn[0], b.mn[1], b.mn[2], mx[0], mx[1], mx[2], b.voxel, pts.size());
+    if (refill) { int k = 0; for (const auto& p : pts) { if (k % 3 == 0) g.place_object(100000 + k, p[0], p[1], p[2]); k++; } g.place_object(100001, b.mn[0] - 0.5 * b.voxel, b.mn[1], b.mn[2] - b.voxel); g.update_dimensions(pts.size(), b.mn[0], b.mn[1], b.mn[2], mx[0], mx[1], mx[2]); }
     auto nb = g.get_nb_voxels();
     char buf[400];
     std::map<size_t, int> occupant;           // voxel -> last object placed (uspg_3d keeps one object per voxel by design)
@@ -76,7 +78,7 @@ static std::string run_case(const Box& b, bool is3d, Stats& st) {
     return "";
 }
 
-static std::string run_any(const Case& c, Stats& st) { return c.grid_kind == 3 ? run_case<uspg_3d<int>>(c.b, true, st) : run_case<uspg_4d<int>>(c.b, false, st); }
+static std::string run_any(const Case& c, Stats& st) { return c.grid_kind == 3 ? run_case<uspg_3d<int>>(c.b, true, st, c.refill) : run_case<uspg_4d<int>>(c.b, false, st, c.refill); }
 
 static void explore(Result& R) {
     const bool th = R.args.thorough();
@@ -86,15 +88,16 @@ static void explore(Result& R) {
     std::vector<double> exts = th ? std::vector<double>{1, 2, 2.5, 3, 4} : std::vector<double>{1, 2.5, 4};
     std::vector<double> voxels = {1.0, 0.5, 0.1, 0.3, 1e-6};
     Stats st; long boxes = 0, cases = 0; long exact_multiple = 0;
-    for (int kind : {3, 4}) for (auto& m : mins) for (double mag : mags) for (double ex : exts) for (double ey : exts) for (double ez : exts) for (double v : voxels) {
+    for (int kind : {3, 4}) for (auto& m : mins) for (double mag : mags) for (double ex : exts) for (double ey : exts) for (double ez : exts) for (double v : voxels) for (int rf = 0; rf < 2; rf++) {
+        if (rf && !th && (ex != ey)) continue;   /* quick: the re-dimensioned object on the boxes with equal x/y extents */
         if (R.out_of_time(0.9)) { R.cap("deadline"); goto done; }
-        Case c; c.grid_kind = kind; for (int k = 0; k < 3; k++) c.b.mn[k] = m[k] * mag; c.b.ext[0] = ex; c.b.ext[1] = ey; c.b.ext[2] = ez; c.b.voxel = v;
+        Case c; c.grid_kind = kind; c.refill = rf; for (int k = 0; k < 3; k++) c.b.mn[k] = m[k] * mag; c.b.ext[0] = ex; c.b.ext[1] = ey; c.b.ext[2] = ez; c.b.voxel = v;
         if (kind == 3) boxes++;
         cases++; if (ex == std::floor(ex) || ey == std::floor(ey) || ez == std::floor(ez)) exact_multiple++;
         std::string err = run_any(c, st);
         if (!err.empty()) {
-            std::string key = clause_of(err) + "|uspg_" + std::to_string(kind) + "d";
-            R.violation(key, err + " [box " + box_json(c.b) + "]", "grid=" + std::to_string(kind) + "\nbox=" + box_text(c.b) + "\n");
+            std::string key = clause_of(err) + "|uspg_" + std::to_string(kind) + "d" + (rf ? "|refilled" : "");
+            R.violation(key, err + " [box " + box_json(c.b) + "]", "grid=" + std::to_string(kind) + "\nrefill=" + std::to_string(rf) + "\nbox=" + box_text(c.b) + "\n");
         }
         if (cases % 1500 == 1) R.sample("{\"grid\":\"uspg_" + std::to_string(kind) + "d\",\"box\":" + box_json(c.b) + "}");
     }
@@ -102,13 +105,13 @@ done:
     R["evaluations"] = st.points + st.nb_queries; R["transitions"] = st.points + st.nb_queries; R["states"] = cases; R["distinct_nontrivial"] = cases;
     R["traces_validated_against_impl"] = cases; R["boxes"] = boxes; R["points_placed"] = st.points; R["neighbourhood_queries"] = st.nb_queries;
     R["points_on_box_boundary"] = st.boundary_points; R["points_on_max_corner"] = st.max_corner_points; R["cases_with_extent_multiple_of_voxel"] = exact_multiple;
-    R.strings["rule"] = "a case = (grid class, box min corner, magnitude, extents per axis in voxels, voxel size); every lattice point of half-voxel spacing in the closed box (faces, edges, corners, max corner) plus, on every axis, the representable numbers just inside the min and max faces is indexed, placed, retrieved and used as neighbourhood query; reference = brute force over all stored points; distinct_nontrivial = cases";
+    R.strings["rule"] = "a case = (grid class, box min corner, magnitude, extents per axis in voxels, voxel size, fresh object / object re-dimensioned after an earlier fill on another box); every lattice point of half-voxel spacing in the closed box (faces, edges, corners, max corner) plus, on every axis, the representable numbers just inside the min and max faces is indexed, placed, retrieved and used as neighbourhood query; reference = brute force over all stored points; distinct_nontrivial = cases";
     R.assumptions = {"uspg_3d keeps one object per voxel by design: 'stored' means the last object placed in each voxel", "neighbourhood inclusion required for Euclidean distance <= voxel*(1-1e-9) (one part in 1e9 of slack for the rounding of the index computation)",
                      "a point may be attributed to either voxel when it lies on a voxel boundary (tolerance 1e-9 voxel)"};
 }
 
 static int replay(const Replay& rp, Result& R) {
-    Case c; c.grid_kind = (int)rp.geti("grid", 4); c.b = box_parse(rp.get("box")); Stats st;
+    Case c; c.grid_kind = (int)rp.geti("grid", 4); c.refill = (int)rp.geti("refill", 0); c.b = box_parse(rp.get("box")); Stats st;
     std::string e1 = run_any(c, st), e2 = run_any(c, st);
     if (e1 != e2) { printf("replay diverged\n"); return 0; }
     if (!e1.empty()) { R.violation(e1.substr(0, e1.find(':')), e1, ""); return 1; }
